@@ -108,7 +108,10 @@ func (d *deepView) digestOf(v ssa.Value, fr *frame) digestInfo {
 		return digestInfo{why: "not hash.Hash.Sum / sha256.Sum256"}
 	}
 	if !ir.IsNilConst(call.Call.Args[0]) {
-		return digestInfo{why: "Sum is given a non-nil prefix"}
+		// an empty slice with spare capacity is the same as nil for the result
+		if segs, ok := d.byteSeq(call.Call.Args[0], r.fr, 0); !ok || len(segs) != 0 {
+			return digestInfo{why: "Sum is given a non-nil prefix"}
+		}
 	}
 	h := d.resolve(call.Call.Value, r.fr)
 	ctor, isCtor := h.v.(*ssa.Call)
